@@ -6,26 +6,46 @@ Oracle (real library only).  A case is a small document (<= 6 lines quick) of on
   mixed           a valid document of one version plus one or two lines that exist only in the other version
                   (other-version S syntax, L/C/P resp. E/F/G/O/U on a segment of the document, H VN of the other
                   version)
-together with a `version` parameter in {None, "gfa1", "gfa2"} and a validation level.  Every order of the lines
-(all n!) is loaded as a list; a sample of the orders also as a string and through from_file.  Independent
-classification of the lines (text only): GFA1-only = S with 2 positional fields, L, C, P, H with VN:Z:1.0;
-GFA2-only = S with 3 positional fields, E, F, G, O, U, H with VN:Z:2.0; neutral = other H, comments.
-Required versions R = versions of the version-specific lines + the explicit parameter.
+  oddvn           a document with a VN header whose value gfapy does not know
+  rgfa            a document obeying the rules of the rGFA dialect (S with SN:Z SO:i SR:i, links 0M, no H/C/P),
+                  written in GFA1 syntax (valid rGFA) or, the same content, in GFA2 syntax (gen_rgfa_doc)
+together with a `version` parameter in {None, "gfa1", "gfa2"}, a `dialect` parameter (None = not passed, or
+"rgfa": most rgfa documents, 12% of the pure / mixed / neutral ones) and a validation level.
+REPEATED LINES: in 30% of the pure / mixed documents (15% of the rgfa ones) a line that may legally occur several
+times - a record without identifier: containment without ID tag, fragment, `*`-named E/G/O/U, GFA2 custom record;
+or a comment - occurs two or three times (preferably of a record type that is queued while the version is unknown,
+C resp. custom record, synthesised on a segment of the document if it has none).
+Every order of the lines (all n!) is loaded as a list; a sample of the orders also as a string and through
+from_file (the dialect is passed to all three entry points).  Independent classification of the lines (text only):
+GFA1-only = S with 2 positional fields, L, C, P, H with VN:Z:1.0; GFA2-only = S with 3 positional fields, E, F, G, O,
+U, H with VN:Z:2.0; neutral = other H, comments.
+Required versions R = versions of the version-specific lines + the explicit parameter + gfa1 if dialect="rgfa"
+(the dialect is a dialect of GFA1).
 
 Checked at level >= 1:
   * the outcome (version string, or exception class) is the same for every order and entry point;
-  * |R| = 1: loaded, and Gfa.version is that version;   |R| = 2: gfapy.VersionError (isinstance) and nothing else;
+  * |R| = 1: loaded, and Gfa.version is that version;   |R| = 2: gfapy.VersionError (isinstance) and nothing else -
+    in particular GFA2 content, or version="gfa2", with dialect="rgfa" (accepting it, or rejecting it for another
+    rule of the dialect with another exception class, is a failure);
   * |R| = 0 (neutral): only consistency across orders and entry points (the documented default is "gfa2");
-  * a loaded document contains every input record exactly once (count of (record type, positional fields) keys,
-    a header tag = one key, a link = its complement): queued lines are added exactly once.
+  * a loaded document contains every input record exactly as many times as the input does (count of (record type,
+    positional fields) keys, a header tag = one key, a link = its complement): queued lines are added exactly
+    once each - also when two of them have the same text.
 At level 0 (documented to skip checks): no foreign exception in any order; for documents without a conflict the
 outcome is the same in every order / entry point and the records are present exactly once.
 
 NOT CHECKED:
-  * custom records together with GFA1 content or version="gfa1" (gfapy has no custom records in GFA1; the GFA1
-    specification is silent): consistency only;
-  * the rgfa dialect parameter; VN values other than 1.0 / 2.0; Gfa.version *during* loading (after each add_line);
-  * which of several conflicts is reported, and messages; acceptance of mixed documents at level 0.
+  * custom records together with GFA1 content, version="gfa1" or the rgfa dialect (gfapy has no custom records in
+    GFA1; the GFA1 specification is silent): consistency only;
+  * dialect="rgfa" without a contradiction: whether a GFA1 document that breaks another rule of the dialect (H/C/P
+    lines, missing SN/SO/SR, overlap not 0M) is rejected, and how, is not C13's business - nothing is checked for
+    it except the absence of foreign exceptions; a document valid as rGFA must load as gfa1.  When nothing but the
+    dialect speaks for GFA1 (neutral document, no version parameter) gfapy's default guess gfa2 makes it raise
+    VersionError; the property leaves the neutral case to the documented default, so nothing is checked either;
+  * VN values other than 1.0 / 2.0; Gfa.version *during* loading (after each add_line);
+  * which of several conflicts is reported, and messages; acceptance of mixed documents at level 0 (the dialect is
+    not enforced at level 0);
+  * repeated lines given as gfapy.Line objects (only strings are loaded).
 """
 import itertools
 import os
@@ -36,9 +56,11 @@ from harness.props import _docgen as D
 
 ID = "C13"
 RULE = ("documents of 1-6 lines: pure GFA1, pure GFA2, neutral (H without VN, comments), mixed (valid document + 1-2 "
-        "lines of the other version, or a contradicting VN header); every order of the lines as a list, sampled orders as "
-        "string and file; x version parameter in {None, gfa1, gfa2} x validation level 0..3. Non-trivial: >= 2 lines and "
-        "at least one version-specific line or an explicit version.")
+        "lines of the other version, or a contradicting VN header), rGFA-conforming content in GFA1 or GFA2 syntax; "
+        "optionally one identifier-less line (C, F, *-named E/G/O/U, custom record, comment) repeated 2-3 times; every "
+        "order of the lines as a list, sampled orders as string and file; x version parameter in {None, gfa1, gfa2} x "
+        "dialect in {not given, rgfa} x validation level 0..3. Non-trivial: >= 2 lines and at least one "
+        "version-specific line or an explicit version / dialect.")
 CASE_TIMEOUT = 120
 
 
@@ -66,6 +88,7 @@ def gen_rgfa_doc(rng, syntax):
     rng.shuffle(names)
     names = names[:rng.choice([1, 2, 2, 3])]
     lines = []
+    ends = set()
     for k, n in enumerate(names):
         ln = rng.choice([4, 6, 8])
         seq = rng.choice(["*", "ACGTACGT"[:ln]])
@@ -83,12 +106,15 @@ def gen_rgfa_doc(rng, syntax):
         a, b = rng.choice(names), rng.choice(names)
         if syntax == "gfa1":
             tg = [t for t in ["SR:i:1", "L1:i:4", "L2:i:6"] if rng.random() < 0.4]
-            x = "\t".join(["L", a, rng.choice("+-"), b, rng.choice("+-"), "0M"] + tg)
+            oa, ob = rng.choice("+-"), rng.choice("+-")
+            if D.ends_key(a, oa, b, ob) in ends:
+                continue
+            ends.add(D.ends_key(a, oa, b, ob))
+            x = "\t".join(["L", a, oa, b, ob, "0M"] + tg)
         else:
             x = rng.choice(["E\t*\t%s+\t%s-\t0\t0\t0\t0\t*" % (a, b), "F\t%s\tread1+\t0\t0\t0\t0\t*" % a,
                             "G\t*\t%s+\t%s-\t10\t*" % (a, b), "# c"])
-        if x not in lines or not x.startswith("L"):
-            lines.append(x)
+        lines.append(x)
     if rng.random() < 0.25 and len(lines) < 5:
         lines.append("# rGFA")
     rng.shuffle(lines)
